@@ -134,9 +134,12 @@ func openFile(file string) (*os.File, error) {
 	return outfile, nil
 }
 
-// createFile creates file.
+// createFile creates file. Like openFile it opens in append mode: when
+// several writers share the file (steps that name the same stdout file),
+// every write goes to the current end of the file, not to a private offset,
+// and a file somebody else created in the meantime is not truncated.
 func createFile(file string) (*os.File, error) {
-	outfile, err := os.Create(file)
+	outfile, err := os.OpenFile(file, os.O_APPEND|os.O_CREATE|os.O_WRONLY, 0666)
 	if err != nil {
 		return nil, err
 	}
